@@ -66,6 +66,8 @@ def defaults_for(t):
 
 def limits_for(t):
     r = type_range(t)
+    if t in W.REAL:
+        return [(None, None), (-2.5, 1.0e6), (-1e-3, None), (None, 0.75), (0.0, 0.0)]
     if r is None:
         return [(None, None)]
     lo, hi = r
